@@ -189,6 +189,11 @@ func (e *Enc) strLit(s string) Term {
 			e.assert(Eq(StrAt(t, IntLit(int64(i))), IntLit(int64(s[i]))))
 		}
 	}
+	if len(s) == 1 {
+		// a one-character string is determined by its character (extensionality, needed to conclude from
+		// x != "\n" that a one-character x holds another character)
+		e.assert(mk(SBool, fmt.Sprintf("(forall ((qs Str)) (! (=> (and (= (str_len qs) 1) (= (str_at qs 0) %d)) (= qs %s)) :pattern ((str_len qs))))", s[0], t.S)))
+	}
 	for _, o := range e.strlitOrder {
 		e.assert(Ne(t, o))
 	}
